@@ -30,6 +30,30 @@ pub(crate) fn io_event(ev: IoEvent) {
     }
 }
 
+/// Where a thread stands when it reaches a yield point: about to take a page latch, or just granted one (C14).
+#[derive(Debug, Clone, Copy, PartialEq, Eq)]
+pub enum YieldPoint {
+    BeforeReadLatch,
+    AfterReadLatch,
+    BeforeWriteLatch,
+    AfterWriteLatch,
+}
+
+type YieldHook = Box<dyn Fn(YieldPoint) + Send + Sync>;
+static YIELD_HOOK: RwLock<Option<YieldHook>> = RwLock::new(None);
+
+/// Installs (or removes) the hook called at every page-latch acquisition; a harness uses it to perturb the
+/// schedule (yield, sleep) so that the windows around latch hand-over are actually explored.
+pub fn set_yield_hook(hook: Option<YieldHook>) {
+    *YIELD_HOOK.write() = hook;
+}
+
+pub(crate) fn yield_point(p: YieldPoint) {
+    if let Some(hook) = YIELD_HOOK.read().as_ref() {
+        hook(p);
+    }
+}
+
 /// One page changing hands inside [`crate::io::pager::Pager`] (C11).
 #[derive(Debug, Clone, Copy, PartialEq, Eq)]
 pub enum PageEvent {
